@@ -301,6 +301,10 @@ func reifyStruct(opts *options, orig reflect.Value, cfg *Config) Error {
 		if err != nil {
 			return err
 		}
+		// the tags of the fields the type filled itself
+		if err := validateStruct(to, opts); err != nil {
+			return raiseValidation(cfg.ctx, cfg.metadata, "", err)
+		}
 	} else {
 		tryInitDefaults(to)
 		numField := to.NumField()
@@ -720,10 +724,8 @@ func reifyMergeValue(
 		if err != nil {
 			return reflect.Value{}, err
 		}
-		if err := runValidators(old.Interface(), opts.validators); err != nil {
-			return reflect.Value{}, raiseValidation(val.Context(), val.meta(), "", err)
-		}
-		if err := tryValidate(old); err != nil {
+		// field tags, nested values and Validate, as for every other value
+		if err := tryRecursiveValidate(old, opts.opts, opts.validators); err != nil {
 			return reflect.Value{}, raiseValidation(val.Context(), val.meta(), "", err)
 		}
 		return pointerize(t, baseType, old), nil
